@@ -322,6 +322,15 @@ def check(case):
         try:
             r = Substance(ta, natural=nat) + Substance(tb, natural=nat)
             r2 = Substance(ta, natural=nat) * k
+            # adding a single Element (possibly of a species that is already present)
+            first = [it for it, _ in case["a"] if it["t"] == "s"]
+            if first:
+                from scinumtools.materials import Element
+                sp0 = first[0]
+                r3 = Substance(ta, natural=nat) + Element(sp_text(sp0), k, natural=nat)
+                c3 = ca + collections.Counter({(sp0["el"], sp0["A"], sp0["q"] or 0): k})
+                if compare(v, f"Substance({ta!r}) + Element({sp_text(sp0)!r},{k})", r3, c3, nat) is not None or v.violations:
+                    return v
         except Exception as e:
             v.fail("formula-rejected", f"Substance({ta!r}) + Substance({tb!r}) / * {k} raised {e!r}")
             return v
